@@ -280,7 +280,9 @@ Fixpoint gc_scan (now : Z) (skip : bool) (es : list (bytes * meta)) (d : db) : d
         | Some m =>
             if expired m now d then gc_scan now true r (del_meta k d)
             else
-              let d1 := if meta_modified m then snd (ss_set m d) else d in
+              let '(failed, d1) := if meta_modified m then ss_set m d else (false, d) in
+              if failed then gc_scan now false r d1   (* the write was rejected: the record stays hot and modified *)
+              else
               let c := m_count m - 1 in
               let m1 := {| m_key := m_key m; m_val := if c <? 0 then None else m_val m;
                            m_mod := false; m_count := c; m_vtype := m_vtype m |} in
